@@ -140,7 +140,7 @@ def run(ctx):
         else:
             # records obtained by iterating the blocks
             try:
-                recs = [r for b in fastavro.block_reader(io.BytesIO(j["data"])) for r in b]
+                recs = core.with_timeout(lambda: [r for b in fastavro.block_reader(io.BytesIO(j["data"])) for r in b], 30)
                 bt2 = "".join(G.show_py(v) + ";" for v in recs) + "|END"
             except Exception as e:
                 bt2 = "|RAISED"
